@@ -590,6 +590,36 @@ def body_stage(case):
             where = "one object" if which == "interleave" else "two objects of one configuration"
             if check_overlapping(lambda: stage.call(obj, mine, c), lambda: stage.call(obj_b, theirs, c), case.get("preempt", [3]), f"{stage.name} ({n} events, {where})"):
                 labels.add("overlapping_calls" if which == "interleave" else "overlapping_calls_two_objects")
+        elif which == "real_threads":
+            # real threads on ONE object (numpy releases the GIL inside its loops, so the calls truly overlap - also inside
+            # a single source line, which the owned schedule cannot split): a smoke differential, every result == base
+            if not stage.reentrant or stage.scripted_rng or stage.name == "eas.__call__":
+                continue
+            import threading
+
+            outs_, errs_ = {}, []
+            go = threading.Barrier(4)
+
+            def worker(t_):
+                try:
+                    go.wait()
+                    for rep_ in range(4):
+                        outs_[(t_, rep_)] = [np.asarray(o) for o in stage.call(obj, tuple(np.array(a) for a in arrays), c)]
+                except BaseException as e:  # noqa: BLE001
+                    errs_.append(e)
+
+            ths = [threading.Thread(target=worker, args=(t_,)) for t_ in range(4)]
+            for th in ths:
+                th.start()
+            for th in ths:
+                th.join()
+            if errs_:
+                raise Violation(f"{stage.name}: a call raised {type(errs_[0]).__name__}: {str(errs_[0])[:200]} while three other threads were calling the same object ({n} events)")
+            for key_, got_ in outs_.items():
+                for j2, (g, b) in enumerate(zip(got_, base)):
+                    require(_bytes([g]) == _bytes([b]), f"{stage.name}: four threads calling ONE object with the same {n} events: thread {key_[0]}, call {key_[1]} returns other values in output #{j2} than a call on its own ({int(np.sum(np.asarray(g) != np.asarray(b)))} elements differ)")
+            r, want = [np.array(b_) for b_ in base], base
+            labels.add("real_threads")
         elif which == "caller_state":
             # the CALLER's process-wide numpy settings differ from the defaults: floating-point errors raise (divide,
             # invalid, overflow - underflow stays, exp() of large negative numbers is everywhere), legacy print mode with
@@ -855,7 +885,7 @@ def stage_case(names, sizes):
             "c": st.floats(0.01, 0.99),
             "perm": st.lists(st.floats(0.0, 1.0), min_size=16, max_size=16),
             "split": st.sampled_from(["0", "1", "n-1", "n", "0.5", "0.37", "0.9", "0.41"]),
-            "history": st.lists(st.sampled_from(["same", "perm", "half", "refill", "refill", "scribble", "alt", "other", "other", "strided", "reject", "reject", "bigendian", "fortran2d", "transposed2d", "churn", "interleave", "interleave", "interleave_other", "interleave_other", "float32", "copied", "column", "masked", "caller_state"]), min_size=1, max_size=6),
+            "history": st.lists(st.sampled_from(["same", "perm", "half", "refill", "refill", "scribble", "alt", "other", "other", "strided", "reject", "reject", "bigendian", "fortran2d", "transposed2d", "churn", "interleave", "interleave", "interleave_other", "interleave_other", "float32", "copied", "column", "masked", "caller_state", "real_threads"]), min_size=1, max_size=6),
             "preempt": st.lists(st.one_of(st.integers(0, 40), st.integers(0, 400), st.integers(0, 6000)), min_size=1, max_size=3),
         }
     )
